@@ -136,6 +136,9 @@ def f11_zone(h: float, d: int) -> bool:
 def key(case) -> str:
     k = case.get("kind", "engine")
     d = case.get("decimals")
+    if k == "edge-blank":
+        # F14 is exactly: the second export is the first with the white space at the two ends of the text removed
+        return "F14-edge-blank" if case.get("observed") == "ends-stripped" else f"edge-blank:{case.get('observed')}"
     if k == "engine":
         zs = sorted({cls for h, cls in G.heights_and_weights(case["spec"]) if f11_zone(h, d)})
         if zs:
@@ -291,6 +294,8 @@ def oracle_(case):
     with fl.settings.context(decimals=d), np.errstate(all="ignore"):
         if k == "engine":
             return oracle_engine(case, d)
+        if k == "edge-blank":
+            return oracle_edge_blank(case, d)[:2]
         if k == "text":
             return oracle_text(case, d)
         if k == "term":
@@ -351,11 +356,16 @@ def oracle_engine(case, d):
         # independent of one another (nothing of one import may be shared with, or re-bound by, a later one)
         e2b = fl.FllImporter().from_string(t1)
         o1, o2 = G.run_rows(e, case["rows"]), G.run_rows(e2, case["rows"])
+        o2b = G.run_rows(e2b, case["rows"])
+        # a degenerate parameter (a width or slope of exactly 0) divides by zero in the documented formula itself: the Python
+        # floats of a built engine raise ZeroDivisionError where the NumPy floats of an imported one yield inf / nan; such
+        # parameterisations are outside 'valid parameters' (C03) and are not judged (the same rule as in C15)
+        if any("ZeroDivisionError" in str(o) for o in o1 + o2 + o2b):
+            o1 = o2 = o2b = []
         if o1 != o2:
             i = next(i for i, (a, b) in enumerate(zip(o1, o2)) if a != b)
             return False, (f"outputs differ on row {i}: original {o1[i]} imported {o2[i]} (the text was imported twice; this is "
                            f"the engine of the first import, evaluated after the second import)")
-        o2b = G.run_rows(e2b, case["rows"])
         if o1 != o2b:
             i = next(i for i, (a, b) in enumerate(zip(o1, o2b)) if a != b)
             return False, f"outputs of the second import of the same text differ on row {i}: original {o1[i]} imported {o2b[i]}"
@@ -363,6 +373,54 @@ def oracle_engine(case, d):
     if export(e3) != t2:
         return False, "second cycle is not a fixed point"
     return True, "ok"
+
+
+def oracle_edge_blank(case, d):
+    """descriptions / formulas that begin or end with white space (single-line, without '#': inside the quantifier).
+    Returns (ok, detail, observed) where `observed` classifies what happened to the text: 'same' (round trip holds),
+    'ends-stripped' (the second export is the first with the ends of that text stripped: known finding F14), or 'other'"""
+    e = G.build(case["spec"])
+    t1 = export(e)
+    try:
+        t2 = export(fl.FllImporter().from_string(t1))
+    except Exception as ex:  # noqa: BLE001
+        return False, f"the exported text is not accepted back: {type(ex).__name__}: {ex}", "other"
+    if t2 == t1:
+        return True, "ok", "same"
+    text = case["text"]
+    expected = t1.replace(text, text.strip(), 1)
+    if text.strip() != text and t1.count(text) >= 1 and t2 == expected:
+        return False, (f"{case['where']} {text!r}: the second export holds {text.strip()!r} (the importer strips both ends of a value), "
+                       f"so export(import(T)) != T"), "ends-stripped"
+    return False, f"{case['where']} {text!r}: the second export differs from the first otherwise than by the stripped ends", "other"
+
+
+def edge_blank_cases(ctx):
+    """one text of a small engine (description of the engine / a variable / a rule block, formula of a Function term) with
+    white space at its beginning and / or end"""
+    rng = ctx.rng
+    for i in range(ctx.scale(8, 40)):
+        d = 1 + (i % 9)
+        spec = G.gen_engine_spec(rng, d, mode="grid", representable=True, force_terms=["Function"], size="small")
+        names = {v["name"] for v in spec["inputs"] + spec["outputs"]}
+        for v in spec["inputs"] + spec["outputs"]:
+            for t in v["terms"]:
+                for k in [k for k in t.get("variables", {}) if k in names]:
+                    del t["variables"][k]
+        lead, trail = rng.choice([(" ", ""), ("", " "), ("\t", ""), ("", "\t"), ("  ", "  "), (" ", "\t")])
+        holders = [("engine description", spec)] + [("variable description", v) for v in spec["inputs"] + spec["outputs"]] + \
+                  [("rule block description", b) for b in spec["blocks"]]
+        fts = [t for v in spec["inputs"] + spec["outputs"] for t in v["terms"] if t["cls"] == "Function"]
+        if fts and i % 4 == 3:
+            t = rng.choice(fts)
+            text = lead + t["formula"] + trail
+            t["formula"] = text
+            where = "Function formula"
+        else:
+            where, h = rng.choice(holders)
+            text = lead + "edge " + G.spaced_text(rng, quotes=False) + " text" + trail
+            h["description"] = text
+        yield {"kind": "edge-blank", "decimals": d, "spec": spec, "text": text, "where": where}
 
 
 def oracle_text(case, d):
@@ -791,6 +849,13 @@ def correspond(ctx):
 
     for case in engine_cases(ctx):
         engine_case(case)
+    # ---- texts with white space at their ends (known finding F14: classified by what exactly happens to the text)
+    for case in edge_blank_cases(ctx):
+        with fl.settings.context(decimals=case["decimals"]), np.errstate(all="ignore"):
+            ok, detail, observed = oracle_edge_blank(case, case["decimals"])
+        st.count("edge-blank")
+        if not ok:
+            violation(dict(case, observed=observed), detail)
     ctx.notes["classes_covered"] = len(seen_classes)
     fm = fl.settings.factory_manager
     expected = {f"term:{k}" for k in G.term_classes()} | {f"tnorm:{k}" for k in G.keys(fm.tnorm)} | \
